@@ -123,3 +123,37 @@ Definition ld_predicted (c : ldcase) : bool * nat :=
   (Nat.eqb (panicking_rows VMain (ld_rows c)) 0, ld_json c + decoded_count VMain (ld_rows c)).
 Definition ld_mismatches (cs : list ldcase) : list nat :=
   map ld_id (filter (fun c => negb (fst (ld_predicted c) && Nat.eqb (snd (ld_predicted c)) (ld_items c))) cs).
+
+(* ---------------------------------------------------------------------------------------------------------------------
+   Round 8: Go's `for len(rest) > 0 && rest[0] is a quote { two QuotedPrefix rounds }` WITHOUT fuel, as a relation (a Go loop has
+   no fuel; [pairs_loop] above cuts it off after len(doc)+1 rounds and answers Malformed then -- whether that cut-off can ever be
+   the reason of an answer is what proofs/ReadLabelDocProofs.v settles). [loop_run rest n k o]: started on [rest] with [n] pairs
+   stored, the loop ends with outcome [o] after [k] COMPLETED rounds (a round = label name + label value). No derivation = the
+   goroutine spins forever, the request hangs. *)
+Definition starts_quote (rest : bytes) : bool := match rest with c :: _ => c =? """" | [] => false end.
+Definition decoder_start (doc : bytes) : bytes := trim_prefix_brace (trim_space doc).
+
+Section Unbounded.
+  Variable quoted_prefix : bytes -> option nat.
+  Variable v : variant.
+  Inductive loop_run : bytes -> nat -> nat -> outcome -> Prop :=
+  | LR_exit : forall rest n, starts_quote rest = false -> loop_run rest n 0 (finish rest n)
+  | LR_panic1 : forall rest n, starts_quote rest = true -> take_quoted quoted_prefix v true rest = SPanic -> loop_run rest n 0 Panic
+  | LR_err1 : forall rest n, starts_quote rest = true -> take_quoted quoted_prefix v true rest = SErr -> loop_run rest n 0 Malformed
+  | LR_panic2 : forall rest n r1, starts_quote rest = true -> take_quoted quoted_prefix v true rest = SGo r1 ->
+      take_quoted quoted_prefix v false r1 = SPanic -> loop_run rest n 0 Panic
+  | LR_err2 : forall rest n r1, starts_quote rest = true -> take_quoted quoted_prefix v true rest = SGo r1 ->
+      take_quoted quoted_prefix v false r1 = SErr -> loop_run rest n 0 Malformed
+  | LR_round : forall rest n r1 r2 k o, starts_quote rest = true -> take_quoted quoted_prefix v true rest = SGo r1 ->
+      take_quoted quoted_prefix v false r1 = SGo r2 -> loop_run r2 (S n) k o -> loop_run rest n (S k) o.
+End Unbounded.
+Definition qp_nothing (s : bytes) : option nat := Some 0.
+Definition one_quote : bytes := [""""].    (* the text of one byte, a double quote *)
+
+(* tie, round 8: what the REAL strconv.QuotedPrefix answered on a text (0 = error, else len(q)) against the scanner of the tie,
+   and the contract the termination theorem needs of it (at least one byte, at most the text) *)
+Record qpcase := mkQP { qp_id : nat; qp_text : list nat; qp_real : nat }.
+Definition qp_model (c : qpcase) : nat := match qp_scan (of_codes (qp_text c)) with Some n => n | None => 0 end.
+Definition qp_contract_ok (c : qpcase) : bool := Nat.eqb (qp_real c) 0 || (Nat.leb 1 (qp_real c) && Nat.leb (qp_real c) (length (qp_text c))).
+Definition qp_mismatches (cs : list qpcase) : list nat := map qp_id (filter (fun c => negb (Nat.eqb (qp_model c) (qp_real c))) cs).
+Definition qp_contract_violations (cs : list qpcase) : list nat := map qp_id (filter (fun c => negb (qp_contract_ok c)) cs).
